@@ -106,7 +106,7 @@ class Start(SimpleCommand):
         i = self.convert_to_path(arg.content)
 
         with i.open() as f:
-            text = f.read().splitlines()
+            text = f.read().split("\n")
         commands = Compiler.prepare_for_stack(text)
 
         run_parallel = commandName.cont_upper() != "STARTCODE"
